@@ -3321,9 +3321,16 @@ class StateEngine(object):
             result = branch_results["results"]
             event_ids = branch_results["ids"]
 
+            """
+            When the terminal state of this branch is itself a Parallel or Map
+            state the event being handled belongs to one of *its* branches. It
+            is recorded here too (and left unacknowledged by the nested state,
+            see the end of this function), otherwise the result of this branch
+            would be represented by nothing but volatile memory until the
+            results of all the other branches have been returned.
+            """
             result[index] = data
-            if previous_state_type != "Parallel" and previous_state_type != "Map":
-                event_ids[index] = id
+            event_ids[index] = id
 
             #print("----- asl_state_collect_results -----")
             #print(result)
@@ -3513,6 +3520,17 @@ class StateEngine(object):
                 )
                 if error_type:
                     handle_error(state, error_type, error_message)
+
+            """
+            If this Map or Parallel state is the terminal state of a branch of
+            an enclosing Map or Parallel state the event being handled has just
+            been recorded by the enclosing state's results, which acknowledge it
+            when they are complete, so it must stay unacknowledged here.
+            """
+            if state.get("End") and "Branch" in context_state:
+                for i, event_id in enumerate(event_ids):
+                    if event_id == id:
+                        event_ids[i] = None
 
             # Acknowledge the events for each branch's terminal state
             #print("Result - event_ids:")
